@@ -355,14 +355,21 @@ func c45Parse(kind string, hasSig bool, buf []byte) (ok bool, out *hs, pan any) 
 }
 
 func c45Bytes(tb ev.TB, rec *ev.Rec, kind string, hasSig bool, data []byte, class string) {
-	w := map[string]any{"kind": kind, "has_sig_and_hash": hasSig, "bytes_hex": hex.EncodeToString(data), "class": class}
+	extra := map[string]any{}
+	w := func() map[string]any { // built on failure only
+		m := map[string]any{"kind": kind, "has_sig_and_hash": hasSig, "bytes_hex": hex.EncodeToString(data), "class": class}
+		for k, v := range extra {
+			m[k] = v
+		}
+		return m
+	}
 	rec.Case(fmt.Sprintf("b:%s:%v:%x", kind, hasSig, data), true, "bytes", "bytes/"+kind, "bytes/"+class)
 	// (1) exactly-sized allocation
 	exact := make([]byte, len(data))
 	copy(exact, data)
 	ok1, out1, pan := c45Parse(kind, hasSig, exact)
 	if pan != nil {
-		rec.Fail(tb, "unmarshal-panic/"+kind, w, "%s.unmarshal panicked on %d bytes: %v", kind, len(data), pan)
+		rec.Fail(tb, "unmarshal-panic/"+kind, w(), "%s.unmarshal panicked on %d bytes: %v", kind, len(data), pan)
 		return
 	}
 	// (2) canaries behind the message
@@ -377,12 +384,12 @@ func c45Bytes(tb ev.TB, rec *ev.Rec, kind string, hasSig bool, data []byte, clas
 		var p any
 		oks[i], outs[i], p = c45Parse(kind, hasSig, big[:len(data)])
 		if p != nil {
-			rec.Fail(tb, "unmarshal-panic/"+kind, w, "%s.unmarshal panicked (message in front of a larger buffer): %v", kind, p)
+			rec.Fail(tb, "unmarshal-panic/"+kind, w(), "%s.unmarshal panicked (message in front of a larger buffer): %v", kind, p)
 			return
 		}
 	}
 	if oks[0] != ok1 || oks[1] != ok1 || ok1 && (!reflect.DeepEqual(out1, outs[0]) || !reflect.DeepEqual(out1, outs[1])) {
-		rec.Fail(tb, "reads-past-message/"+kind, w, "%s.unmarshal result depends on bytes behind the message (ok: %v %v %v)", kind, ok1, oks[0], oks[1])
+		rec.Fail(tb, "reads-past-message/"+kind, w(), "%s.unmarshal result depends on bytes behind the message (ok: %v %v %v)", kind, ok1, oks[0], oks[1])
 		return
 	}
 	if !ok1 {
@@ -396,12 +403,12 @@ func c45Bytes(tb ev.TB, rec *ev.Rec, kind string, hasSig bool, data []byte, clas
 	var out2 *hs
 	var ok2 bool
 	if p := ev.Try(func() { wire, out2, ok2, _ = bfe_tls.VerifRoundTrip(out1) }); p != nil {
-		rec.Fail(tb, "remarshal-panic/"+kind, w, "marshalling the parsed %s panicked: %v", kind, p)
+		rec.Fail(tb, "remarshal-panic/"+kind, w(), "marshalling the parsed %s panicked: %v", kind, p)
 		return
 	}
-	w["remarshalled_hex"] = hex.EncodeToString(wire)
+	extra["remarshalled_hex"] = hex.EncodeToString(wire)
 	if !ok2 {
-		rec.Fail(tb, "reparse-rejected/"+kind, w, "parsed %s, re-marshalled, is rejected by unmarshal", kind)
+		rec.Fail(tb, "reparse-rejected/"+kind, w(), "parsed %s, re-marshalled, is rejected by unmarshal", kind)
 		return
 	}
 	if !c45Equal(out1, out2) {
@@ -413,7 +420,7 @@ func c45Bytes(tb ev.TB, rec *ev.Rec, kind string, hasSig bool, data []byte, clas
 				key = "clienthello-renegotiation-info-lost"
 			}
 		}
-		rec.Fail(tb, key, w, "parse(marshal(parse(x))) != parse(x) for %s: %s", kind, c45Diff(out1, out2))
+		rec.Fail(tb, key, w(), "parse(marshal(parse(x))) != parse(x) for %s: %s", kind, c45Diff(out1, out2))
 	}
 }
 
@@ -532,8 +539,8 @@ func FuzzC45(f *testing.F) {
 		f.Add(uint8(i)|0x80, []byte{})
 	}
 	f.Fuzz(func(t *testing.T, sel uint8, data []byte) {
-		if len(data) > 1<<16 {
-			return
+		if len(data) > 1<<13 {
+			return // keeps one execution far below the fuzz engine's 10 s per-input watchdog even on a starved machine
 		}
 		kind := kinds[int(sel&0x7f)%len(kinds)]
 		c45Bytes(t, rec, kind, sel&0x80 != 0, data, "fuzz")
